@@ -457,7 +457,10 @@ func whereServe() string {
 		var fr []string
 		for _, l := range ls[1:] {
 			if strings.HasPrefix(l, "mellium.im/xmpp") {
-				fr = append(fr, l[:strings.IndexByte(l+"(", '(')])
+				if i := strings.LastIndexByte(l, '('); i > 0 {
+					l = l[:i]
+				}
+				fr = append(fr, l)
 				if len(fr) == 3 {
 					break
 				}
